@@ -744,6 +744,11 @@ func (r *PipelineRunner) SaveToStore() {
 			shouldRemoveJob, removalReason := r.determineIfJobShouldBeRemoved(i, job)
 
 			if shouldRemoveJob {
+				if job.Start == nil && !job.Canceled {
+					// A waiting job (of a pipeline that is not defined any more) must not stay on the wait list:
+					// it would be started later although it is not known to the runner any more
+					r.removeJobFromWaitList(job)
+				}
 				delete(r.jobsByID, job.ID)
 				r.jobsByPipeline[job.Pipeline] = removeJobFromList(r.jobsByPipeline[job.Pipeline], job)
 
@@ -904,6 +909,12 @@ func removeJobFromList(jobs []*PipelineJob, jobToRemove *PipelineJob) []*Pipelin
 func (r *PipelineRunner) determineIfJobShouldBeRemoved(index int, job *PipelineJob) (bool, string) {
 	pipelineDef, pipelineDefExists := r.defs.Pipelines[job.Pipeline]
 	if !pipelineDefExists {
+		if job.isRunning() {
+			// A job that still executes is kept (with its logs) until it has finished: it holds a concurrency
+			// slot if the pipeline is defined again, can be canceled and reports its result. The next save after
+			// its completion removes it.
+			return false, "Keeping running job of removed pipeline"
+		}
 		return true, "Pipeline definition not found"
 	}
 
@@ -1018,6 +1029,22 @@ func (r *PipelineRunner) cancelJobInternal(id uuid.UUID) error {
 	})()
 
 	return nil
+}
+
+// removeJobFromWaitList takes a waiting job off the wait list of its pipeline (keeping the order of the other
+// jobs) and stops its start delay timer
+func (r *PipelineRunner) removeJobFromWaitList(job *PipelineJob) {
+	if job.startTimer != nil {
+		job.startTimer.Stop()
+		job.startTimer = nil
+	}
+	waitList := r.waitListByPipeline[job.Pipeline]
+	for i, queuedJob := range waitList {
+		if queuedJob == job {
+			r.waitListByPipeline[job.Pipeline] = append(waitList[:i:i], waitList[i+1:]...)
+			break
+		}
+	}
 }
 
 func (r *PipelineRunner) StartDelayedJob(id uuid.UUID) {
